@@ -468,10 +468,16 @@ func c13RunAsk(line string) string {
 						ch := ask.AskChannel(actor)
 						setRes(i, "V"+strconv.Itoa(<-ch))
 					default:
-						v, err := ask.AskOnceWithTimeout(actor, c13Timeout(sp.kind))
+						to := c13Timeout(sp.kind)
+						t0 := time.Now()
+						v, err := ask.AskOnceWithTimeout(actor, to)
+						elapsed := time.Since(t0)
 						switch {
 						case err == nil:
 							setRes(i, "V"+strconv.Itoa(v))
+						case err == fpgo.ErrActorAskTimeout && elapsed < to:
+							// the timer starts inside the call: a timeout result can never come back sooner than `to`
+							setRes(i, "Tearly")
 						case err == fpgo.ErrActorAskTimeout && v == 0:
 							setRes(i, "T")
 						case err == fpgo.ErrActorAskTimeout:
@@ -607,12 +613,20 @@ func c13RunStress(line string) string {
 					}
 					atomic.AddInt32(&answers, 1)
 				default:
+					if to > 0 && rng.Intn(3) == 0 {
+						// the request object is older than the call: the timeout still counts from the call
+						time.Sleep(to + time.Duration(rng.Int63n(int64(to)+1)))
+					}
+					t0 := time.Now()
 					v, err := ask.AskOnceWithTimeout(actor, to)
+					elapsed := time.Since(t0)
 					switch {
 					case err == nil && v == reply(p):
 						atomic.AddInt32(&answers, 1)
 					case err == nil:
 						setViol(fmt.Sprintf("misrouted AskOnceWithTimeout(%d) = %d, want %d", p, v, reply(p)))
+					case err == fpgo.ErrActorAskTimeout && elapsed < to:
+						setViol(fmt.Sprintf("early timeout ErrActorAskTimeout after %dus of a %dus timeout", elapsed.Microseconds(), to.Microseconds()))
 					case err == fpgo.ErrActorAskTimeout && v == 0:
 						atomic.AddInt32(&timeouts, 1)
 					default:
